@@ -264,7 +264,11 @@ func (st *style) escAttr(s string, q byte) string {
 		case '<':
 			b.WriteString(pick(r, []string{"&lt;", "&#60;"}))
 		case '>':
-			b.WriteString(pick(r, []string{">", "&gt;"}))
+			if strings.HasSuffix(b.String(), "]]") { // Go's decoder rejects a literal ]]> even inside attribute values
+				b.WriteString("&gt;")
+			} else {
+				b.WriteString(pick(r, []string{">", "&gt;"}))
+			}
 		case '"':
 			if q == '"' || r.Chance(30) {
 				b.WriteString(pick(r, []string{"&quot;", "&#34;"}))
